@@ -129,8 +129,10 @@ def body(h):
     h.require('only-basic-errors-escape', res[0] == 'ok', res)
     # whatever the statement did (or failed at), the interpreter must be left in a state in which the
     # next direct line -- here one that forces a string-space collection -- runs normally
-    post = h.call(impl.execute, b'R%=FRE("")')
-    h.require('next-line-with-a-collection-runs', post[0] == 'ok', post)
+    # (not after CLEAR ,n: the size of the data segment is then symbolic and every later allocation forks on it)
+    if h.params['name'] not in ('clear', 'clear3'):
+        post = h.call(impl.execute, b'R%=FRE("")')
+        h.require('next-line-with-a-collection-runs', post[0] == 'ok', post)
     err = impl.interpreter.error_num
     return [res[0], res[1] if res[0] != 'ok' else None]
 
